@@ -71,7 +71,9 @@ func (d *D) runReal(sc *core.Scenario, inject string) *realRun {
 		args = append(args, "-e", "inject="+inject)
 	}
 	args = append(args, bin)
-	args = append(args, sc.Argv...)
+	for _, a := range sc.Argv {
+		args = append(args, strings.Replace(a, "@ABS/", dir+"/", 1))
+	}
 	cmd := exec.Command("strace", args...)
 	cmd.Dir = dir
 	cmd.Stdin = strings.NewReader(sc.Stdin)
@@ -209,8 +211,8 @@ func (d *D) conformance(sc *core.Scenario, ctx *core.Ctx, n int) {
 		return
 	}
 	for _, f := range sc.Files {
-		if f.Link != "" {
-			return // the conformance layer keeps to regular files
+		if f.Link != "" || f.Hard != "" {
+			return // the conformance layer keeps to regular files with one name
 		}
 	}
 	// fault-free: real binary vs in-process
